@@ -24,6 +24,12 @@ namespace rkcommon {
       Observable() = default;
       virtual ~Observable();
 
+      // NOTE: observers look at one particular instance, so a copy starts out
+      //       without observers and an instance that is assigned to keeps its
+      //       own (classes that have an Observable base or member get copied)
+      Observable(const Observable &);
+      Observable &operator=(const Observable &);
+
       void notifyObservers();
 
      private:
@@ -46,6 +52,10 @@ namespace rkcommon {
       Observer(Observable &observee);
       ~Observer();
 
+      // NOTE: a copy is one more observer of the same instance
+      Observer(const Observer &);
+      Observer &operator=(const Observer &);
+
       bool wasNotified();
 
      private:
@@ -63,6 +73,13 @@ namespace rkcommon {
     {
       for (auto *observer : observers)
         observer->observee = nullptr;
+    }
+
+    inline Observable::Observable(const Observable &) {}
+
+    inline Observable &Observable::operator=(const Observable &)
+    {
+      return *this;
     }
 
     inline void Observable::notifyObservers()
@@ -92,6 +109,25 @@ namespace rkcommon {
     {
       if (observee)
         observee->removeObserver(*this);
+    }
+
+    inline Observer::Observer(const Observer &other) : observee(other.observee)
+    {
+      if (observee)
+        observee->registerObserver(*this);
+    }
+
+    inline Observer &Observer::operator=(const Observer &other)
+    {
+      if (this != &other) {
+        if (observee)
+          observee->removeObserver(*this);
+        observee = other.observee;
+        if (observee)
+          observee->registerObserver(*this);
+        lastObserved.renew();
+      }
+      return *this;
     }
 
     inline bool Observer::wasNotified()
